@@ -9,6 +9,7 @@ import numpy as np
 from vlib import evlog
 
 PROPERTY = "C10"
+REPLAY_REPEATS = 10
 LEVEL = "exploration"
 JOBS = 14
 CASE_TIMEOUT = 240
